@@ -4,6 +4,7 @@
    relates the two. *)
 From Coq Require Import List ZArith Bool String Ascii Lia.
 From OV.Model Require Import Json.
+From OV.Gen Require Import ValidateRules.
 Import ListNotations.
 Local Open Scope Z_scope.
 
@@ -273,13 +274,6 @@ Inductive ocode :=
 | COccurenceConstraintViolation | COccurrenceConstraintViolation
 | CTypeConstraintViolation | CGenericError.
 
-Definition code_of (k : kind) : ocode :=
-  match k with
-  | KType | KMaxLength => CTypeConstraintViolation
-  | KRequired => CProtocolError
-  | _ => CFormatViolation
-  end.
-
 Definition ocode_eqb (a b : ocode) : bool :=
   match a, b with
   | CNotImplemented, CNotImplemented | CNotSupported, CNotSupported
@@ -304,3 +298,32 @@ Definition code_name (c : ocode) : string :=
   | COccurrenceConstraintViolation => "OccurrenceConstraintViolation"
   | CTypeConstraintViolation => "TypeConstraintViolation" | CGenericError => "GenericError"
   end%string.
+
+(* the jsonschema keyword a violated constraint kind is reported under (SchemaValidationError.validator) *)
+Definition kind_keyword (k : kind) : string :=
+  match k with
+  | KType => "type" | KRequired => "required" | KAdditional => "additionalProperties" | KEnum => "enum"
+  | KMaxLength => "maxLength" | KMinItems => "minItems" | KMaxItems => "maxItems"
+  | KMinimum => "minimum" | KMaximum => "maximum" | KMultipleOf => "multipleOf"
+  | KOutOfRange | KCrash => ""
+  end%string.
+
+Definition all_ocodes : list ocode :=
+  [CNotImplemented; CNotSupported; CInternalError; CProtocolError; CSecurityError; CFormatViolation;
+   CFormationViolation; CPropertyConstraintViolation; COccurenceConstraintViolation;
+   COccurrenceConstraintViolation; CTypeConstraintViolation; CGenericError].
+
+Definition ocode_of_name (s : string) : option ocode :=
+  find (fun c => String.eqb (code_name c) s) all_ocodes.
+
+(* _validate_payload's mapping from the failing keyword to the OCPP error: the table is regenerated from
+   the source of that function on every run (Gen/ValidateRules.v) *)
+Definition code_of (k : kind) : ocode :=
+  let name := match k with
+              | KOutOfRange => invalid_operation_code
+              | _ => match assoc (kind_keyword k) keyword_codes with
+                     | Some c => c
+                     | None => other_keyword_code
+                     end
+              end in
+  match ocode_of_name name with Some c => c | None => CInternalError end.
